@@ -114,26 +114,30 @@ template <class S> void lattice(vf::Ctx& c, const char* tname, int p, int ni) {
 
 // ---- S: one solver object, sequences of problems ------------------------------------------------------------------
 struct Op { int p, nsel, solver, prec; };   // solver 0 Cholesky, 1 SVD, 2 weighted; prec 0 keep the current preconditioner, 1 setPreconditionner(A,b), 2 setPreconditionner(A)
-template <class S> void sequences(vf::Ctx& c, const char* tname, int depth, int firstOp) {
+// longRun: a fixed script of 40 problems (cycling through the 81 kinds) with ONE deviation: position firstOp is replaced by every operation in turn
+template <class S> void sequences(vf::Ctx& c, const char* tname, int depth, int firstOp, bool longRun = false) {
   using Vec = typename Problem<S>::Vec;
   std::vector<Op> ops;
   for (int p = 1; p <= 3; ++p) for (int ns = 0; ns < 3; ++ns) for (int s = 0; s < 3; ++s) for (int pr = 0; pr < 3; ++pr) ops.push_back({p, ns, s, pr});
   const int NPROB = (int)ops.size();
   const int NOPS = NPROB + 2;   // + "other = solver; continue with other" (other has a past of its own), "continue with a copy-constructed solver"
   long double eps = std::numeric_limits<S>::epsilon();
-  uint64_t total = 1; for (int i = 1; i < depth; ++i) total *= NOPS;
+  const int len = longRun ? 40 : depth;
+  uint64_t total = 1; if (longRun) total = NOPS; else for (int i = 1; i < depth; ++i) total *= NOPS;
   std::set<uint64_t> states;
-  std::vector<int> seq(depth); seq[0] = firstOp;
+  std::vector<int> seq(len), base(len); if (!longRun) seq[0] = firstOp;
+  for (int i = 0; i < len; ++i) base[i] = (i * 37 + 11) % NPROB;
   LeastSquares<S> usedSolver(2);   // a solver with a past of its own (another estimate size, a preconditioner, a solved problem): the target of the assignment operation
   { Problem<S> Q = make_problem<S>(8, 2, 3, 1, 1, 0, 0, 7); usedSolver.setDataSize(8); load(usedSolver, Q, false); Vec A2(2); A2 << (S)2, (S)0.5; typename Problem<S>::Mat Am = A2.asDiagonal(); usedSolver.setPreconditionner(Am, A2); solve(usedSolver, Q, 1); }
   for (uint64_t k = 0; k < total; ++k) {
-    uint64_t r = k; for (int i = 1; i < depth; ++i) { seq[i] = r % NOPS; r /= NOPS; }
+    if (longRun) { if (firstOp == 0 && (int)k >= NPROB) continue; seq = base; seq[firstOp] = (int)k; }
+    else { uint64_t r = k; for (int i = 1; i < depth; ++i) { seq[i] = r % NOPS; r /= NOPS; } }
     std::unique_ptr<LeastSquares<S>> cur(new LeastSquares<S>(ops[seq[0]].p)), other(new LeastSquares<S>(usedSolver));
 #define ls (*cur)
     int curP = ops[seq[0]].p;
     // model of the configured preconditioner: identity / zero after construction and after setEstimateSize
     Vec mA = Vec::Ones(curP), mb = Vec::Zero(curP);
-    for (int i = 0; i < depth; ++i) {
+    for (int i = 0; i < len; ++i) {
       if (seq[i] == NPROB) { c.transitions(); *other = *cur; std::swap(cur, other); continue; }
       if (seq[i] == NPROB + 1) { c.transitions(); std::unique_ptr<LeastSquares<S>> cp(new LeastSquares<S>(*cur)); other = std::move(cur); cur = std::move(cp); continue; }
       const Op& o = ops[seq[i]];
@@ -177,11 +181,12 @@ template <class S> void sequences(vf::Ctx& c, const char* tname, int depth, int 
 }  // namespace
 
 // cases: L: 2 types x 8 p x 5 n ; S: 2 types x 81 first ops
-uint64_t vf_ncases(const std::string& tier) { return 80 + 162; }
+uint64_t vf_ncases(const std::string& tier) { return 80 + 162 + 80; }
 
 void vf_run(uint64_t idx, const std::string& tier, vf::Ctx& c) {
   if (idx < 80) { int t = idx / 40, p = (idx % 40) / 5 + 1, ni = idx % 5; if (t == 0) lattice<double>(c, "double", p, ni); else lattice<float>(c, "float", p, ni); }
-  else { int k = (int)idx - 80; int depth = tier == "thorough" ? 4 : 3; if (k < 81) sequences<double>(c, "double", depth, k); else sequences<float>(c, "float", depth, k - 81); }
+  else if (idx < 80 + 162) { int k = (int)idx - 80; int depth = tier == "thorough" ? 4 : 3; if (k < 81) sequences<double>(c, "double", depth, k); else sequences<float>(c, "float", depth, k - 81); }
+  else { int k = (int)idx - 242; if (k < 40) sequences<double>(c, "double", 0, k, true); else sequences<float>(c, "float", 0, k - 40, true); }
 }
 
 std::string vf_describe(const std::string& tier) {
@@ -189,6 +194,7 @@ std::string vf_describe(const std::string& tier) {
   o.str("L", "estimate size 1..8 x data size {p,p+1,2p,50,500} x kappa {1,1e2,3e2,1e4,1e6} x magnitude {2^-27,2^-10,1,2^10} (float {2^-13,2^-6,1,2^6}) x Y {consistent, inconsistent, strongly inconsistent} x weights {none, alternating 1/4..4, one zero, one huge} x preconditioner {none, diagonal, diagonal+offset, identity+offset}; cases with 8 p kappa^2 eps > 0.5 are skipped (no digits in the normal equations)");
   o.str("L_oracle", "Householder-QR solution in long double; |x - x_ref| <= 8 p eps kappa^2 (|x|+|Y|/smax); normal-equation residual; Cholesky vs SVD path");
   o.i("S_depth", tier == "thorough" ? 4 : 3).str("S_ops", "problem(p in 1..3 (setEstimateSize when it changes), n in {p,p+2,8}, solver in {Cholesky, SVD, weighted}, preconditioner {kept, setPreconditionner(A,b), setPreconditionner(A)}) = 81 operations, plus (after the first) 'assign the solver to another long-lived solver and continue with that one' and 'continue with a copy-constructed solver'; the model tracks the configured preconditioner; buffers NaN-poisoned before each problem; result vs fresh solver within 256*9 eps");
+  o.str("S_long", "a fixed script of 40 problems cycling through the 81 kinds on one solver, and every variant with ONE position replaced by any of the 83 operations (deviation bound 1); same oracle after every step");
   return o.done();
 }
 
